@@ -29,8 +29,15 @@ class FragIO(tch.ChannelIO):
 
     def __init__(self, argv, sizes=None, linger=0.0, env=None):
         self.master, self.slave = pty.openpty()
+        def pre():
+            # default signal dispositions for the shell, however this check was started (see runimpl.RunIO)
+            import signal
+            for sig in (signal.SIGINT, signal.SIGQUIT, signal.SIGTSTP, signal.SIGTTIN, signal.SIGTTOU, signal.SIGHUP,
+                        signal.SIGTERM, signal.SIGPIPE):
+                signal.signal(sig, signal.SIG_DFL)
+
         self.p = subprocess.Popen(argv, stdin=self.slave, stdout=self.slave, stderr=self.slave,
-                                  start_new_session=True, env=env)
+                                  start_new_session=True, env=env, preexec_fn=pre)
         fl = fcntl.fcntl(self.master, fcntl.F_GETFL)
         fcntl.fcntl(self.master, fcntl.F_SETFL, fl | os.O_NONBLOCK)
         self.buf = bytearray()
